@@ -215,6 +215,16 @@ SPECIAL_RESULTS = [
 ]
 
 
+def js_to_string(v):
+    if v is True:
+        return "true"
+    if v is False:
+        return "false"
+    if isinstance(v, float):
+        return "0" if v == 0 else repr(v)
+    return str(v)
+
+
 def run_callable(payload):
     """Arguments received by an exposed callable, and what the script sees of its return value."""
     from mc.props.common import engine
@@ -236,6 +246,8 @@ def run_callable(payload):
     parts = []
     for args in got:
         parts.append("(" + ",".join(e.ser(a) for a in args) + ")")
+    if payload.get("only_result"):
+        return "result=" + obs_r + "\x00" + payload["exp"]
     return "calls=" + "".join(parts) + " result=" + obs_r + "\x00" + payload["exp"]
 
 
@@ -260,6 +272,25 @@ def _callable_cases(maxlen):
         src = "var r = f(); " + probe
         out.append(("callable returns %r, script evaluates `%s`" % (ret, probe),
                     {"src": src, "ret": ret, "exp": "calls=() result=" + want}))
+    # the exposed callable used where built-ins call back (its falsy results must arrive as they are)
+    for ret, lit in ((0, "d0000000000000000"), ("", 's""'), (False, "F"), (-0.0, "d8000000000000000"), (0.0, "d0000000000000000"),
+                     (None, None), (1, "d3ff0000000000000"), ("x", 's"x"')):
+        for form, n_calls in (("[7].map(f)[0]", 1), ("[7, 8].reduce(f)", 1), ("'a-b'.replace('-', f)", 1), ("[7].find(f)", 1),
+                              ("[2, 1].sort(f).length", 1), ("[7].filter(f).length", 1), ("[7].some(f)", 1), ("[7].every(f)", 1)):
+            if form.startswith("[7].map") or form.startswith("[7, 8].reduce"):
+                want = "N" if ret is None else lit
+            elif "replace" in form:
+                want = canon("a" + ("undefined" if ret is None else js_to_string(ret)) + "b")
+            elif "find(" in form:
+                want = canon(7) if ret else "N"
+            elif "sort" in form:
+                want = canon(2)
+            elif "filter" in form:
+                want = canon(1 if ret else 0)
+            else:
+                want = "T" if ret else "F"
+            out.append(("callable returning %r used as the callback of `%s`" % (ret, form),
+                        {"src": form, "ret": ret, "exp": "result=" + want, "only_result": True}))
     # a host function is only invoked when called explicitly
     for src in ("f; typeof f", "var g = f; [g].length", "typeof f === 'function'", "'' + (f === f)", "[f, f].length"):
         r = {"f; typeof f": 's"function"', "var g = f; [g].length": "d3ff0000000000000", "typeof f === 'function'": "T",
